@@ -177,6 +177,17 @@ fn encode<'t, T>(
     use crate::token::LeafKind::{Class, Literal, Separator, Wildcard};
     use crate::token::Wildcard::{One, Tree, ZeroOrMore};
 
+    // The position of a branch token superposes the positions of the branches that enclose it: a
+    // token within a branch is only at the start (or end) of the expression if the branch is too.
+    fn superpose(superposition: Option<Position>, position: Position) -> Position {
+        match (superposition, position) {
+            (None | Some(Only), position) => position,
+            (Some(First), First | Only) => First,
+            (Some(Last), Last | Only) => Last,
+            _ => Middle,
+        }
+    }
+
     fn encode_intermediate_tree(grouping: Grouping, pattern: &mut String) {
         pattern.push_str(sepexpr!("(?:{0}|{0}"));
         grouping.push_str(pattern, sepexpr!(".*{0}"));
@@ -288,7 +299,7 @@ fn encode<'t, T>(
                             pattern.push_str("(?:");
                             encode::<Token<_>>(
                                 Grouping::NonCapture,
-                                superposition.or(Some(position)),
+                                Some(superpose(superposition, position)),
                                 &mut pattern,
                                 token,
                             );
@@ -306,7 +317,7 @@ fn encode<'t, T>(
                         pattern.push_str("(?:");
                         encode::<Token<_>>(
                             Grouping::NonCapture,
-                            superposition.or(Some(position)),
+                            Some(superpose(superposition, position)),
                             &mut pattern,
                             repetition.token(),
                         );
